@@ -134,9 +134,9 @@ func (e *Env) RefreshKeysets() {
 				ks.Keys[amt] = pt
 				ks.KeyHex[amt] = pt.Hex()
 			}
+			ks.Fee = k.InputFeePpk // the fee a keyset is first seen with is the harness's truth
 			e.Keysets[k.Id] = ks
 		}
-		ks.Fee = k.InputFeePpk
 		ks.Active = k.Active
 	}
 }
